@@ -114,6 +114,8 @@ B_FB = ['eq', 'ne', 'lt', 'le', 'gt', 'ge', 'tvl_eq', 'tvl_ne', 'tvl_lt', 'tvl_l
 B_BB = ['and', 'or', 'xor', 'tvl_and', 'tvl_or']
 RED_F = ['sum', 'mean', 'max', 'min', 'median']
 RED_B = ['any', 'all', 'tvl_any', 'tvl_all']
+MW_FAMILY = {'mw_lt', 'mw_le', 'mw_gt', 'mw_ge', 'mw_eq', 'mw_ne', 'mw_between', 'mw_outside', 'mask_where_eq_o', 'mw_between_o',
+             'mw_outside_o'}
 MW = ['mw_lt', 'mw_le', 'mw_gt', 'mw_ge', 'mw_eq', 'mw_ne']
 
 
@@ -639,8 +641,11 @@ def oracle(case):
             sub = subtree(case['tree'], pa)
             inner = [c[0] for c in sub[2:] if c[0] != 'v']
             sig = 'leak:%s:%s' % (opa, field_diff(oa, ob))
-            if opa not in ('clip', 'clip_o') and any(o in ('clip', 'clip_o') for o in O.tree_ops(sub)):
+            below = O.tree_ops(sub)[1:]
+            if any(o in ('clip', 'clip_o') for o in below):
                 sig += '@clip'          # the difference is the consequence of a clip() below this node
+            elif any(o in MW_FAMILY for o in below):
+                sig += '@mw'            # ... of a mask_where_xx() below this node
             return (sig, 'hidden values change the observable result of %s (params %s, inner ops %s): run A gives %s, run B '
                     '(storage under the masks overwritten) gives %s' % (opa, sub[1], inner, C.sx(sxable(oa))[:300], C.sx(sxable(ob))[:300]))
     if len(na) != len(nb):
